@@ -73,6 +73,9 @@ def h_serial_observed(ctx, which, bits, nq):
             v, w, used = calls[0]
             ctx.prove(E.and_(w == bits, E.eq(v, x)), "decoded another frame than the one observed", key=tag + "/frame")
             ctx.prove(E.eq(used, dt), "decoded with another device type than the remembered one", key=tag + "/devtype")
+            ctx.prove(_CmdStub.Command.forward[0], "the observed frame was handed to the decoder as a plain Frame: if it "
+                      "matches no known command the decoder raises TypeError and the frame is dropped",
+                      key=tag + "/not-a-forward-frame")
         is_edt = E.and_(bits == 16, E.eq(x >> 8, 0xC1))
         want = E.ite(is_edt, x & 0xFF, 0)
         ctx.prove(E.eq(p._prev_rx_enable_dt, want), "device-type memory after the frame is wrong",
@@ -83,6 +86,47 @@ def h_serial_observed(ctx, which, bits, nq):
         ctx.prove(gone.qsize() == 0, "unsubscribed queue still receives", key=tag + "/unsubscribed")
         ctx.prove(p.queue_rx_dali.qsize() == 0 or True, "", key=tag + "/parent")
         return "ok"
+
+
+def h_serial_history(ctx, which):
+    """ENABLE DEVICE TYPE a, frame X, ENABLE DEVICE TYPE b, the same frame X again - on one receiver, with
+    the real decoder (nothing stubbed): every forward frame is delivered once, in order, and X is decoded
+    each time with the type announced immediately before it and by nothing older (not even by what the
+    same bits meant a moment ago)."""
+    with _patched(ctx, stub=False):
+        p = S.DriverLubaRs232.LubaProtocol() if which == "luba" else S.DriverSCIRS232.SCIRS232Protocol()
+        q = S.DistributorQueue(p.queue_rx_dali)
+        hi = [0xFF, 0x03, 0x8B][ctx.fresh_choice("hi", 3)]
+        lo = ctx.fresh("lo", 0xE0, 0xE7)
+        x = (hi << 8) | lo
+        dt1, dt2 = ctx.fresh("dt1", 0, 255), ctx.fresh("dt2", 0, 255)
+        third = ctx.fresh_bool("plain_between")     # a plain frame instead of the second announcement
+        frames = [0xC100 | dt1, x, (0xFE00 | (dt2 & 0xFE)) if third else (0xC100 | dt2), x]
+        tag = "%s-history" % which
+        for v in frames:
+            fb = [(v >> 8) & 0xFF, v & 0xFF]
+            pkt = rigs.luba_event_rx(fb) if which == "luba" else rigs.sci_frame(0x13, 0, fb[0], fb[1])
+            st, r = call(p.data_received, pkt)
+            if st == "exc":
+                ctx.fail("receiver raised %r" % (r,), key=tag + "/raised:" + type(r).__name__)
+                return "raised"
+        got = []
+        while q.qsize():
+            got.append(q.get_nowait())
+        ctx.prove(len(got) == 4, "%d commands delivered for four observed frames" % len(got), key=tag + "/count")
+        if len(got) != 4:
+            return "count"
+        types = [0, dt1, 0, 0 if third else dt2]
+        labels = []
+        for i, (v, dt, g) in enumerate(zip(frames, types, got)):
+            st, want = call(C.from_frame, F.ForwardFrame(16, v), devicetype=dt)
+            ok = st == "ok" and type(g) is type(want)
+            ctx.prove(ok, "frame %d of the history decoded as %s, under the announced type it is %s"
+                      % (i, type(g).__name__, type(want).__name__ if st == "ok" else want),
+                      key=tag + "/class:%d" % i)
+            ctx.prove(E.eq(g.frame.as_integer, v), "frame %d delivered with other bits" % i, key=tag + "/bits:%d" % i)
+            labels.append(type(g).__name__)
+        return ",".join(labels[1::2])
 
 
 def h_subscriber_history(ctx, which, steps):
@@ -441,6 +485,7 @@ def cases(tier):
     nsteps = 4 if tier == "quick" else 6
     for which in ("luba", "sci"):
         cs.append(Case("%s-subscriber-history" % which, h_subscriber_history, {"which": which, "steps": nsteps}))
+        cs.append(Case("%s-history" % which, h_serial_history, {"which": which}))
     cs.append(Case("callback-history", h_callback_history, {"steps": nsteps}))
     cs.append(Case("callback-reentrant", h_callback_reentrant, {"nsubs": 3 if tier == "quick" else 4}))
     inst = rigs.install_tridonic_structs
